@@ -42,6 +42,7 @@ def run(chk):
         heapuse.rule_dangling_fields(chk, prog, "C08.R6")
         c07.r_expand(chk, prog, ma)
         c07.r_functions(chk, prog, ma)
+    r7_user_delete(chk, prog)
     own.rule_leaks(chk, prog, "C05.R6", acquirers=own.NODE_ACQUIRERS, floor=25,
                    text="no orphaned node: a node reference held by a local of a library function (a constructor's result, a "
                         "reference taken with json_object_get, the slot a copy was built into) is released, returned or handed to a "
@@ -402,3 +403,41 @@ def _passes(cfg, rel, d, use):
                 seen.add(s)
                 work.append((s, 0))
     return True
+
+
+def r7_user_delete(chk, prog):
+    """the destruction callback runs whenever one is registered"""
+    from ..flow import Paths, dominating_conditions
+    rid = "C05.R7"
+    chk.rule(rid, "the user's destruction callback (_user_delete) is called whenever it is non-NULL: no call through it is guarded by a "
+                  "test of the user data pointer, which may legitimately be NULL")
+    m = prog.module("json_object.c")
+    chk.require(m is not None, "json_object.c not in the build")
+    n = 0
+    for f in [g for g in m.functions.values() if not g.is_decl]:
+        P = None
+        for i in f.instrs():
+            if i.op != "call" or i.callee is not None:
+                continue
+            c = i.x.get("callee")
+            if c is None:
+                continue
+            if P is None:
+                P = Paths(f, prog)
+            if not P.path(c).endswith("_user_delete"):
+                continue
+            n += 1
+            chk.touched(f)
+            guards = []
+            for cm, tr in dominating_conditions(f, i.block):
+                if getattr(cm, "op", None) == "icmp" and any(P.path(o).endswith("_userdata") for o in cm.ops if o.kind == "reg"):
+                    guards.append(cm)
+            sig = "call of _user_delete in " + f.name
+            if guards:
+                chk.refuted(rid, f.name, sig, i.locstr(),
+                            "the destruction callback is called only when the user data pointer passes the test at %s: a callback "
+                            "registered with NULL user data (which the API allows) never runs, neither at the last release nor when it "
+                            "is replaced" % guards[0].locstr())
+            else:
+                chk.proven(rid, f.name, sig, i.locstr(), "guarded by the callback pointer only")
+    chk.floor(rid, n, 2, "calls through _user_delete")
